@@ -142,6 +142,7 @@ def cov_c10(st, tier):
         "rule": "E-A part: state = end state of one complete execution of real client+server under one fate assignment, transition = one scheduler step; every datagram of every execution is strictly parsed. "
                 "Aux part: state = one (tunnel domain, query name, type) case, transition = one query handled by the real server loop plus each message it emits. distinct = distinct delivery outcome classes (E-A) + distinct (type, in-domain, answers, answer length) classes (aux)",
         "ea_part": {"executions": ea["execs"], "cells": ea["cells"], "datagrams_strictly_parsed": ea["strictly_parsed"], "answers_paired": ea["answers"], "wall_s": ea.get("wall_s")},
+        "two_client_part": {k: st["parts"].get("two", {}).get(k) for k in ("execs", "cells", "strictly_parsed", "answers", "wall_s")},
         "aux_part": {"queries": aux["aux_queries"], "answers_parsed": aux["aux_answers_parsed"], "ns_answers_checked": aux["ns_answers_checked"], "ns_www_address_answers_checked": aux["a_answers_checked"],
                      "forwarded_copies_parsed": aux["forwarded_copies_parsed"], "queries_left_unanswered": aux["unanswered"], "tunnel_domains": aux["domains"], "wall_s": aux.get("wall_s")},
     })
@@ -193,6 +194,7 @@ def cov_c15(st, tier):
                 "E-B part: state = distinct exact state (server image, users[], world, client model, fragment monitor) reached by a letter sequence, transition = one letter applied to the real server loop. "
                 "Every execution/transition is an implementation run. distinct = distinct delivery outcome classes (E-A) + distinct (letter, pending count, outputs) classes (E-B)",
         "ea_part": {"executions": ea["execs"], "cells": ea["cells"], "data_fragments_checked": ea["data_fragments"], "wall_s": ea.get("wall_s")},
+        "two_client_part": {k: st["parts"].get("two", {}).get(k) for k in ("execs", "cells", "data_fragments", "wall_s")},
         "eb_part": {"states": eb["states"], "transitions": eb["transitions"], "depth_completed": eb["maxdepth"], "alphabet_size": eb["letters"], "start_states": eb["start_states"],
                     "data_answers_checked": eb["data_answers"], "wall_s": eb.get("wall_s")},
     })
@@ -486,4 +488,8 @@ PROPS["C01"]["tiers"] = {"quick": {"budget_s": 480}, "thorough": {"budget_s": 30
 PROPS["C01"]["level_text"] += " A second part runs two real clients behind the server (20 cells: NULL/TXT/MX/CNAME/PRIVATE x lazy/immediate x fragment size) with packets from client to client, client to server, server to client and to an unassigned address, on the clean path and under every single fate deviation (thorough: two deviations)."
 PROPS["C14"]["parts"].append(dict(_TWO, args=["--prop", "C14"]))
 PROPS["C14"]["level_text"] += " (3) The same wire monitor on the two-client exploration (client-to-client packets are sent on the other session's held query)."
+PROPS["C10"]["parts"].append(dict(_TWO, args=["--prop", "C10"]))
+PROPS["C10"]["level_text"] += " The strict parser also monitors every datagram of the two-client exploration (props/ea2.c)."
+PROPS["C15"]["parts"].append(dict(_TWO, args=["--prop", "C15"]))
+PROPS["C15"]["level_text"] += " (3) The same monitor, per session, on the two-client exploration (client-to-client packets are re-cut by the server at the receiving session's size)."
 
